@@ -90,6 +90,7 @@ var jsonDomain = map[string]bool{"map[string]interface{}": true, "[]interface{}"
 	"encoding/json.Number": true, "nil": true, "int": true, "int32": true, "int64": true, "uint64": true, "float32": true, "[]byte": true}
 
 type tagAnalysis struct {
+	refineDepth int
 	p     *Prog
 	fn    *ssa.Function
 	buf   *ssa.Parameter
@@ -1164,6 +1165,12 @@ func (a *tagAnalysis) refine(t tagTuple, cond ssa.Value, taken bool) tagTuple {
 				if sl, ok := t.vals["$p:"+ph.Name()]; ok {
 					if i, err := strconv.Atoi(sl); err == nil && i >= 0 && i < len(ph.Edges) {
 						if _, isC := ph.Edges[i].(*ssa.Const); !isC && ph.Edges[i] != ssa.Value(ph) {
+							// phis of a loop can point at each other: bound the chain
+							a.refineDepth++
+							defer func() { a.refineDepth-- }()
+							if a.refineDepth > 8 {
+								return n
+							}
 							return a.refine(n, ph.Edges[i], g.Pol)
 						}
 					}
